@@ -20,6 +20,7 @@ import (
 	"testing"
 	"testing/synctest"
 	"time"
+	"unsafe"
 
 	"github.com/anacrolix/dht/v2"
 	"github.com/anacrolix/dht/v2/krpc"
@@ -397,3 +398,12 @@ func (r *Run) AdvanceTo(t time.Time) {
 }
 
 func (r *Run) Advance(d time.Duration) { r.AdvanceTo(time.Now().Add(d)) }
+
+// SetNextTransactionID moves the process-wide transaction id counter (reset to
+// 0 at the start of every run) so that a run's queries draw their ids around a
+// chosen value, e.g. a varint length boundary.
+func SetNextTransactionID(v uint64) {
+	iv := reflect.ValueOf(&transactions.DefaultIdIssuer).Elem()
+	f := iv.FieldByName("next")
+	reflect.NewAt(f.Type(), unsafe.Pointer(f.UnsafeAddr())).Elem().SetUint(v)
+}
